@@ -15,7 +15,9 @@ LEVEL = "proof"
 THEOREMS = ["Mistune.refLookup_refAdd_same", "Mistune.refLookup_refAdd_other", "Mistune.refBuild_first", "Mistune.refBuild_append_stable",
             "Mistune.unikeyPy_idem", "Mistune.unikeyPy_ws_run", "Mistune.unikeyPy_ws_lead", "Mistune.unikeyPy_ws_trail", "Mistune.unikeyPy_case"]
 
-LABELS = ["foo", "Foo Bar", "ß", "a*b", "x y  z", "1", "ΑΓΩ", "Ǆ", "q\\]r", "İ", "ﬃ"]
+LABELS = ["foo", "Foo Bar", "ß", "a*b", "x y  z", "1", "ΑΓΩ", "Ǆ", "q\\]r", "İ", "ﬃ",
+          # long labels: the limit of link labels counts a backslash escape as ONE character (so up to ~1000 source characters)
+          "l" + "ong" * 160, "x" + "\\*" * 255, "y" + "\\*" * 300 + " z", "w " * 60 + "end", "e" + "\\]" * 200]
 URLS = ["/u", "<http://a.b/c d>", "/p(q)", "http://x.y/?a=1&b=2", "/é", "#frag"]
 TITLES = ["", ' "T"', " 'single'", " (paren)", ' "multi word title"']
 
@@ -99,6 +101,12 @@ def metamorphic(ctx, n_cases):
             found = re.findall(r'<(?:a href|img src)="([^"]*)"(?: alt="[^"]*")?(?: title="([^"]*)")?', h)
             return sorted(x for x in found if not x[0].startswith(("#fn-", "#fnref-"))), ("[undefined label]" in h), ("[zz][yy]" in h)
         ref = sites(outs["top"])
+        if not ref[0] and title != " (paren)":
+            # every label / destination / quoted title of the lists above makes a valid definition (parenthesised titles are the one
+            # form mistune does not read): if NO use resolves, the definition or the label matching is broken
+            ctx.fail("use-unresolved:all:%s" % ("plugins" if plug else "core"), "no use of the valid definition %r resolves" % (def_line[:200],),
+                     {"def": def_line, "body": body, "doc": place(ctx.rng, body, def_line, "top"), "out": outs["top"][:600]})
+            continue
         if not ref[0]:
             continue   # the definition line itself was not a valid definition (e.g. label variant with a line break inside a list) — nothing to compare
         if len(ref[0]) != len(uses):
